@@ -173,6 +173,11 @@ def find_mask_events(b, evs):
     for e in evs:
         if e.kind == "mcall" and e.name == "mod2n":
             e.is_mask = True
+        if e.kind == "maskimport":
+            # truncation performed inside a helper introduced after the review (storage._inline_helper); the helper's
+            # own ptr/write events are spliced in as well, so most forms are re-detected above: keep the rest
+            if not any(m.loc == e.loc and m.obj == e.obj and m.form == e.form and m.L == e.L for m in out):
+                out.append(MaskEvent(e.loc, e.obj, e.form, e.L, e.detail))
     return out
 
 
@@ -232,6 +237,10 @@ def classify(crate):
     """classify every storage writer; returns list of Writer"""
     out = []
     for b in crate.bodies:
+        if storage.is_new_private_helper(b):
+            # a helper that did not exist on the reviewed tree is judged where it is used: its events are spliced into
+            # every caller (storage._inline_helper), which is where the length it must truncate to is known
+            continue
         evs = storage.events(b)
         rel = [e for e in evs if e.kind in ("write", "agg", "datastore", "lenstore")]
         if not rel:
@@ -252,6 +261,14 @@ def _closure_exprs(crate, b, e):
 
 
 def classify_one(crate, b, evs):
+    # a thin wrapper around a helper introduced after the review: every storage event comes from that one helper, whose
+    # locals the events refer to - classify the helper's own body (with its parameters already bound at the call site)
+    origins = {getattr(e, "inlined_from", None) for e in evs if e.kind in ("write", "agg", "datastore", "lenstore")}
+    if len(origins) == 1 and None not in origins and writer_kind_key(b) not in K5:
+        hs = [h for h in crate.bodies if h.key == list(origins)[0] and h.kind != "Closure"]
+        if len(hs) == 1 and hs[0] is not b:
+            hw = classify_one(crate, hs[0], storage.events(hs[0]))
+            return Writer(b, hw.klass, hw.ok, "%s [through the helper %s]" % (hw.msg, hs[0].key), hw.detail)
     writes = [e for e in evs if e.kind == "write"]
     aggs = [e for e in evs if e.kind == "agg"]
     dstores = [e for e in evs if e.kind == "datastore"]
@@ -325,6 +342,11 @@ def classify_one(crate, b, evs):
     kk = writer_kind_key(b)
     if kk in K5:
         ok, msg = check_k5_conjuncts(crate, b, kk, evs, writes, aggs, dstores, lens)
+        if ok is False:
+            helpers = sorted({crate.new_helper(fn).name for bb, t, fn in b.iter_calls() if crate.new_helper(fn) is not None})
+            if helpers:
+                # the table entry describes the reviewed idiom; the work now happens in helper(s) introduced later
+                ok, msg = None, "%s - the writes moved into the helper(s) %s, whose idiom the table entry does not describe: not decided" % (msg, ", ".join(helpers))
         return Writer(b, "K5", ok, (K5[kk] if ok else msg), dict(table_key="%s/%s/%s" % kk))
 
     # ---- length-only writers (push / pop): no raw write, only a LenStore -------------------------
@@ -365,7 +387,7 @@ def check_k0(b, writes):
         if not mir.contains(width, lambda x: x == n) or not mir.contains(width, lambda x: x == w.index):
             return False, "mask width %s does not depend on both the bit count and the word index" % show(width)
         # the exact per-word width:  min(n - min(n, i*BU), BU)
-        want = ("call", "min", None, (("bin", "Sub", n, ("call", "min", None, (n, ("bin", "Mul", w.index, "BU")))), "BU"))
+        want = ("call", "min", None, (("call", "saturating_sub", None, (n, ("bin", "Mul", w.index, "BU"))), "BU"))
         if not _match_shape(width, want):
             return False, "mask width %s is not min(n - min(n, i*BIT_UNIT), BIT_UNIT)" % show(width)
     return True, "and-assigns mask(min(n - min(n, i*BU), BU)) to every word i in 0..N"
@@ -380,7 +402,11 @@ def _match_shape(e, pat):
     if pat[0] == "call":
         if e[0] != "call" or e[1] != pat[1] or len(e[3]) != len(pat[3]):
             return False
-        return all(_match_shape(a, p) for a, p in zip(e[3], pat[3]))
+        if all(_match_shape(a, p) for a, p in zip(e[3], pat[3])):
+            return True
+        if pat[1] in ("min", "max") and len(pat[3]) == 2:
+            return _match_shape(e[3][1], pat[3][0]) and _match_shape(e[3][0], pat[3][1])
+        return False
     if pat[0] == "bin":
         if e[0] != "bin" or e[1] != pat[1]:
             return False
@@ -437,7 +463,27 @@ def check_k6(crate, b, writes, aggs, lens, dstores):
         return None
     a = aggs[0]
     srcs = set()
-    if writes:
+    if writes and all(w.how == "call:push" for w in writes):
+        # let mut v = Vec::with_capacity(n); for i in 0..int_len(src) { v.push(get_int(src, i).unwrap()) }: the k-th push
+        # is word k, so the pushed word must be the masked source word at the loop index of a 0..int_len(src) loop
+        for w in writes:
+            if not w.value:
+                return None
+            ms = _masked_source(w.value[0])
+            if ms is None or ms[1][0] != "iv":
+                return None
+            rng = b.iter_source(ms[1][1])
+            if not (rng[0] == "agg" and rng[1].startswith("Range") and rng[3][0] == ("int", 0)
+                    and is_call(rng[3][1], "int_len") and rng[3][1][3][0] == ms[0]):
+                return Writer(b, "K6", False, "pushed word range %s is not 0..int_len(%s)" % (show(rng), show(ms[0])))
+            srcs.add(ms[0])
+        d = a.data
+        if is_call(d, "into_boxed_slice") and d[3]:
+            d = d[3][0]
+        init = b.init_expr(d[2]) if d[0] == "var" and len(d) > 2 else None
+        if init is None or not (is_call(init, ("with_capacity", "new")) and "Vec" in (init[2] or "")):
+            return None
+    elif writes:
         for w in writes:
             if w.how != "assign":
                 return None
@@ -493,23 +539,49 @@ def check_k6(crate, b, writes, aggs, lens, dstores):
     return Writer(b, "K6", True, "words from the length-masked accessor of `%s`, length = its length" % name)
 
 
+def _prefix_of(e, root_pred):
+    """e denotes `root[..n]`, `root[0..n]` or the whole `root` (through as_ref / deref / & ): -> True"""
+    for _ in range(6):
+        if is_call(e, ("as_ref", "as_mut", "deref", "deref_mut", "borrow", "as_slice", "as_mut_slice")) and len(e[3]) == 1:
+            e = e[3][0]
+            continue
+        break
+    if root_pred(e):
+        return True
+    if is_call(e, ("index", "index_mut")) and len(e[3]) == 2 and root_pred(e[3][0]) and e[3][1][0] == "agg":
+        r = e[3][1]
+        if r[1] in ("RangeTo", "RangeFull"):
+            return True
+        if r[1] == "Range" and r[3] and r[3][0] == ("int", 0):
+            return True
+    return False
+
+
 def check_realloc(b, writes, aggs, dstores, lens):
     """reallocation helpers: `let mut n = vec![0; k]; n[..j].copy_from_slice(&self.data[..j]) / n[i] = self.data[i];
-    self.data = n.into_boxed_slice()` - value-preserving whatever k and j are (j <= both lengths is bounds-checked)"""
-    if aggs or lens or len(dstores) != 1 or not writes:
+    self.data = n.into_boxed_slice()`, or `self.data = self.data[..j].to_vec().into_boxed_slice()` - a prefix of the old
+    words lands at the same positions of fresh, otherwise zeroed storage (value-preserving whatever k and j are; j <= both
+    lengths is bounds-checked)"""
+    if aggs or lens or len(dstores) != 1:
         return None
     ds = dstores[0]
     if ds.obj != ("param", "self"):
         return None
+    sd = ("field", ("param", "self"), "data")
     v = ds.value
-    if is_call(v, "into_boxed_slice") and v[3]:
+    if is_call(v, ("into_boxed_slice", "into", "from")) and v[3]:
         v = v[3][0]
+    if not writes:
+        init = b.init_expr(v[2]) if v[0] == "var" and len(v) > 2 else v
+        if init is not None and is_call(init, ("to_vec", "to_owned", "into", "from", "collect")) and init[3] \
+                and _prefix_of(init[3][0], lambda x: x == sd):
+            return Writer(b, "REALLOC", True, "the new storage is a copy of a prefix of the old words")
+        return None
     if v[0] != "var" or len(v) < 3:
         return None
     init = b.init_expr(v[2])
     if init is None or not storage.is_zero_data(init):
         return None
-    sd = ("field", ("param", "self"), "data")
     for w in writes:
         if w.obj != v:
             return None
@@ -518,9 +590,7 @@ def check_realloc(b, writes, aggs, dstores, lens):
                 return None
         elif w.how == "call:copy_from_slice":
             tgt, src = w.target, (w.value[0] if w.value else None)
-            rng_t = tgt[3][1] if is_call(tgt, "index_mut") and len(tgt[3]) == 2 else None
-            rng_s = src[3][1] if src is not None and is_call(src, "index") and len(src[3]) == 2 and src[3][0] == sd else None
-            if rng_t is None or rng_s is None or rng_t != rng_s:
+            if src is None or not _prefix_of(tgt, lambda x: x == v) or not _prefix_of(src, lambda x: x == sd):
                 return None
         else:
             return None
@@ -609,21 +679,21 @@ def check_k5_conjuncts(crate, b, kk, evs, writes, aggs, dstores, lens):
         for w in writes:
             v = w.value if w.how == "assign" else None
             if v is None:
-                return False, "%s: unexpected write form %s" % (name, w.how)
+                return None, "%s: word packing idiom not recognised (write through %s): padding not decided here" % (name, w.how)
             if not (is_bin(v, "BitOr") and any(is_bin(x, "Shl") for x in (v[2], v[3]))) and not is_call(mir.strip_casts(v), "cast_from"):
-                return False, "%s: stored word `%s` is not (old << k) | digit" % (name, show(v)[:80])
+                return None, "%s: word packing idiom not recognised (`%s`): padding not decided here" % (name, show(v)[:80])
         return True, ""
     if name in ("shl_assign", "shr_assign"):
         ors = [w for w in writes if w.how == "call:bitor_assign" or (w.how == "assign" and is_bin(w.value, "BitOr"))]
         if not ors:
             return False, "%s: no chunk is or-ed into place" % name
         for w in ors:
-            v = w.value[0] if w.how.startswith("call:") else w.value
+            v = (w.value[0] if w.value else ("unknown", "no operand")) if w.how.startswith("call:") else w.value
             if not mir.contains(v, lambda x: is_bin(x, "BitAnd") and (is_call(x[2], "mask") or is_call(x[3], "mask"))):
                 return False, "%s: the moved chunk is not `& mask(l)`-ed before being or-ed into place" % name
         clears = [w for w in writes if w not in ors]
         for w in clears:
-            v = w.value[0] if w.how.startswith("call:") else w.value
+            v = (w.value[0] if w.value else ("unknown", "no operand")) if w.how.startswith("call:") else w.value
             if not mir.contains(v, lambda x: x[0] == "un" and x[1] == "Not" and mir.contains(x, lambda y: is_call(y, "mask"))):
                 return False, "%s: destination bits are not cleared with `& !(mask(l) << i)`" % name
         return True, ""
@@ -636,6 +706,8 @@ def check_k5_conjuncts(crate, b, kk, evs, writes, aggs, dstores, lens):
             src_ok = mir.contains(v, lambda x: is_call(x, "get_int") and x[3] and x[3][0] == arg) or \
                 mir.contains(v, lambda x: x[0] == "var" and x[1] == "prev")
             if not src_ok:
+                if mir.contains(v, lambda x: isinstance(x, tuple) and x[:1] == ("iv",)):
+                    return None, "%s: stored word `%s` is an item of an iterator whose elements are not tracked" % (name, show(v)[:80])
                 return False, "%s: stored word `%s` does not come from the length-masked accessor of the argument" % (name, show(v)[:80])
         return True, ""
     return True, ""
@@ -828,6 +900,17 @@ def shrink_rule(crate):
             zero_ok = not multiword
             if multiword:
                 for w in evs:
+                    # slice form: self.data[new / BU + 1 .. cap(old len)].fill(0)
+                    if w.kind == "write" and w.obj == l.obj and w.how == "call:fill" and w.value and (
+                            w.value[0] == ("int", 0) or (w.value[0][0] == "assoc" and w.value[0][1] == "ZERO")):
+                        for x in walk(w.target):
+                            if isinstance(x, tuple) and x[:2] == ("agg", "Range") and len(x[3]) == 2:
+                                lo, hi = x[3]
+                                lo_ok = lo == ("bin", "Add", ("bin", "Div", v, _bu_like(lo)), ("int", 1)) or lo == ("bin", "Div", v, _bu_like(lo))
+                                hi_ok = cap_arg(hi) == cur or hi == ("cparam", "N") or (is_call(hi, "len") and hi[3] == (("field", l.obj, "data"),))
+                                if lo_ok and hi_ok:
+                                    zero_ok = True
+                for w in evs:
                     if w.kind == "write" and w.obj == l.obj and w.how == "assign" and w.index is not None and w.index[0] == "iv" \
                             and (w.value == ("int", 0) or (w.value[0] == "assoc" and w.value[1] == "ZERO")):
                         src = b.iter_source(w.index[1])
@@ -849,6 +932,11 @@ def shrink_rule(crate):
                         continue
                     ok = True
                     why = "truncated by %s before the store" % m.detail
+            if not ok:
+                # the store may come first: then the truncation to the new length must follow it on every path
+                post = _post_store_mask(b, l, masks, also=v, crate=crate)
+                if post:
+                    ok, why = True, post
             if ok and not zero_ok:
                 ok = False
                 why = ("shrinks by an arbitrary amount (`%s < len`) but the whole words above the new length are not zeroed "
@@ -857,10 +945,13 @@ def shrink_rule(crate):
     return res
 
 
-def _post_store_mask(b, l, masks):
-    """the length store is followed on every path to a return by a truncation to `obj.length` (the new value)"""
+def _post_store_mask(b, l, masks, also=None, crate=None):
+    """the length store is followed on every path to a return by a truncation to `obj.length` (the new value; `also` is
+    the stored expression itself, valid when it is a parameter / immutable value)"""
     cur = ("field", l.obj, "length")
-    locs = [m.loc for m in masks if m.obj == l.obj and m.L == cur and not m.form.startswith("bad") and m.form != "b2"
+    Ls = [cur] + ([also] if also is not None and also[0] in ("param",) else [])
+    locs = [m.loc for m in masks if m.obj == l.obj and m.L in Ls and not m.form.startswith("bad")
+            and (m.form != "b2" or (crate is not None and _exact_fit(crate, b, l.obj, m.L)))
             and b.loc_dominates(l.loc, m.loc) and m.loc != l.loc]
     if not locs:
         return None
@@ -905,6 +996,8 @@ def used_words(crate):
     for b in crate.bodies:
         if b.self_family != "Bvd" and not (b.kind == "Closure" and "dynamic::" in b.path):
             continue
+        if storage.is_new_private_helper(b):
+            continue        # judged through its callers, where its bounds are concrete
         evs = storage.events(b)
         writes = [e for e in evs if e.kind == "write"]
         uses_alloc = []
